@@ -392,7 +392,18 @@ def check_cost_general(ctx, res, config="all"):
         return
     # who may call the row routine: only mac3 (any other caller is a multiplication that bypasses the regime dispatch)
     callers = sorted({x.path for x in facts.bodies for i, t in x.calls() if (callee(t) or "").endswith("multiplication::mac_digit") and i in x.live_blocks()})
-    if callers == ["biguint::multiplication::mac3"]:
+    # a private helper that is itself called only from mac3 (an extracted schoolbook loop) belongs to mac3: its call site is
+    # judged by the recurrence like the loop it replaces
+    def only_from_mac3(path, seen=()):
+        if path == "biguint::multiplication::mac3":
+            return True
+        hb = facts.body(path)
+        if hb is None or hb.exported() or path in seen:
+            return False
+        cs = {x.path for x in facts.bodies for i, t in x.calls() if callee(t) == path and i in x.live_blocks()}
+        return bool(cs) and all(only_from_mac3(c, seen + (path,)) for c in cs)
+
+    if callers and all(only_from_mac3(c) for c in callers):
         res.ok("R8-row-routine-callers", "mac_digit", {"callers": callers})
     else:
         res.fail(Finding("R8-row-routine-callers", "mac_digit", "the schoolbook row routine mac_digit is called from %s: a product computed there bypasses mac3's sub-quadratic regime dispatch" % [c for c in callers if not c.endswith("::mac3")], b))
